@@ -101,6 +101,16 @@ def run(ctx):
     from . import c07
     with ctx.renamed({"R07.1": "R04.5", "R07.2": "R04.5"}):
         c07.dispersion_rules(ctx)
+    # ---- R04.6 direction bin widths and directional integration of the 2-D class (shared with C02)
+    from .c02 import direction_rules as _dir_rules
+    with ctx.renamed({"R02.1": "R04.6", "R02.2": "R04.6", "R02.3": "R04.6"}):
+        _dir_rules(ctx)
+    ctx.require_count("R04.6", 8)
+    # ---- R04.7 no unsynchronised derived state on the objects this property queries (shared rule, see statecache.py)
+    from ..statecache import instance_memo_rule as _memo, positive_example as _memo_pos
+    _memo(ctx, "R04.7", [p.get_class("wavespectra.spectrum.FrequencySpectrum"), p.get_class("wavespectra.spectrum.FrequencyDirectionSpectrum")], "spectrum classes")
+    _memo_pos(ctx, "R04.7")
+    ctx.require_count("R04.7", 2)
     ctx.require_count("R04.5", 14)
     ctx.require_count("R04.1", 4)
     ctx.require_count("R04.2", 12)
